@@ -60,14 +60,15 @@ int snprintf(char *s, size_t n, const char *f, ...) { (void)f; if (n) s[0] = 0; 
 int fprintf(FILE *f, const char *fmt, ...) { (void)f; (void)fmt; return 0; }
 void perror(const char *s) { (void)s; }
 /* stdio cookie streams */
-typedef struct { void *cookie; cookie_io_functions_t fn; int open; } FakeFile;
+typedef struct { void *cookie; cookie_io_functions_t fn; int open; int pending; } FakeFile;   /* pending: an unterminated partial line sits in the stdio buffer */
 FILE *fopencookie(void *cookie, const char *mode, cookie_io_functions_t fn) {
     (void)mode; if (nondet_int() & 1) return NULL;
-    FakeFile *f = malloc(sizeof(FakeFile)); __CPROVER_assume(f != 0); f->cookie = cookie; f->fn = fn; f->open = 1; return (FILE *)f;
+    FakeFile *f = malloc(sizeof(FakeFile)); __CPROVER_assume(f != 0); f->cookie = cookie; f->fn = fn; f->open = 1; f->pending = 0; return (FILE *)f;
 }
 int setvbuf(FILE *f, char *b, int m, size_t n) { (void)f; (void)b; (void)m; (void)n; return 0; }
-int fflush(FILE *f) { (void)f; return 0; }
-int fclose(FILE *fp) { FakeFile *f = (FakeFile *)fp; __CPROVER_assert(f->open, "stream closed once"); f->open = 0; int r = f->fn.close ? f->fn.close(f->cookie) : 0; free(f); return r; }
+static void fake_drain(FakeFile *f) { if (f->pending) { char tail[2] = { 'x', 'y' }; f->pending = 0; f->fn.write(f->cookie, tail, 2); } }
+int fflush(FILE *fp) { if (fp) fake_drain((FakeFile *)fp); return 0; }
+int fclose(FILE *fp) { FakeFile *f = (FakeFile *)fp; __CPROVER_assert(f->open, "stream closed once"); fake_drain(f); f->open = 0; int r = f->fn.close ? f->fn.close(f->cookie) : 0; free(f); return r; }
 #endif
 
 #include "vm.h"
@@ -97,6 +98,7 @@ VmResult vm_execute(VmState *vm) {
         char chunk[4]; size_t len = nondet_size(); __CPROVER_assume(len >= 1 && len <= 4);
         f->fn.write(f->cookie, chunk, len);
     }
+    if (f && (nondet_int() & 1)) f->pending = 1;      /* the program's last print did not end in a newline: line-buffered stdio holds it */
     vm->error_msg[0] = (char)nondet_uchar();
     return (VmResult)(nondet_int() & 15);
 }
@@ -114,7 +116,7 @@ int bind(int fd, const struct sockaddr *a, socklen_t l) { (void)fd; (void)a; (vo
 int listen(int fd, int n) { (void)fd; (void)n; return 0; }
 int unlink(const char *p) { (void)p; return 0; }
 int chmod(const char *p, mode_t m) { (void)p; (void)m; return 0; }
-FILE *fopen(const char *p, const char *m) { (void)p; (void)m; FakeFile *f = malloc(sizeof(FakeFile)); __CPROVER_assume(f != 0); f->cookie = 0; f->fn.close = 0; f->open = 1; return (FILE *)f; }
+FILE *fopen(const char *p, const char *m) { (void)p; (void)m; FakeFile *f = malloc(sizeof(FakeFile)); __CPROVER_assume(f != 0); f->cookie = 0; f->fn.close = 0; f->fn.write = 0; f->open = 1; f->pending = 0; return (FILE *)f; }
 int fscanf(FILE *f, const char *fmt, ...) { (void)f; (void)fmt; return 0; }
 pid_t getpid(void) { return 42; }
 uid_t getuid(void) { return 1000; }
@@ -162,7 +164,7 @@ void harness(void) {
     CHECK(g_active_clients == in_active0, "the active-client counter returns to its value before the session");
     CHECK(g_module_live == 0 && g_vm_live == 0, "module and VM state are released on every path");
     CHECK(!g_exec_without_verify, "a module is executed only after the verifier accepted it");
-    CHECK(g_frames_after_exit == 0 && g_exit_frames <= 1, "the exit-code frame is the last frame of a session");
+    CHECK(g_frames_after_exit == 0 && g_exit_frames <= 1, "the exit-code frame is the last frame of a session (all program output, incl. an unterminated last line, is sent before it)");
     CHECK(g_executed == 0 || g_exit_frames == 1 || g_io_on_closed == 0, "session bookkeeping");
     WITNESS("session done");
 #else
